@@ -48,7 +48,38 @@ def scalar_of(n):
     return None
 
 
-def eval_cc_arm(body_expr):
+def helper_scalars(db, call):
+    """`helper(&["a", "b"], 32)` where the crate-local helper builds il::scalar(<element of its slice parameter>, <its width
+    parameter>) for every element: the collection of (name, width) it yields, or None when the helper is not of that shape."""
+    f = db.hir.get(callee(call) or "") if db is not None else None
+    if f is None or call.get("k") != "Call":
+        return None
+    names = bits = None
+    for i, a in enumerate(call["args"]):
+        arr = [x for x in walk(a) if x.get("k") == "Array"]
+        if arr:
+            strs = [str_lit(e) for e in arr[0].get("es", arr[0].get("elems", []))]
+            if strs and all(x is not None for x in strs):
+                names = (i, strs)
+        elif int_lit(unq(a)) is not None:
+            bits = (i, int_lit(unq(a)))
+    if names is None or bits is None or len(f.get("params", [])) != len(call["args"]):
+        return None
+    pn, pb = f["params"][names[0]].get("hid"), f["params"][bits[0]].get("hid")
+    made = [x for x in walk(f["body"]) if callee(x) in ("il::scalar", "il::expr_scalar") and x.get("k") == "Call" and len(x["args"]) == 2]
+    if len(made) != 1:
+        return None
+    w = unq(made[0]["args"][1])
+    width_is_param = w.get("k") == "Path" and w.get("res", {}).get("hid") == pb
+    name_from_slice = not any(x.get("k") == "Lit" for x in walk(made[0]["args"][0])) and \
+        any(x.get("k") == "Path" and x.get("res", {}).get("hid") == pn for x in walk(f["body"]))
+    if not (width_is_param and name_from_slice):
+        return None
+    kind = "set" if "HashSet" in (f.get("output") or "") else "list"
+    return (kind, [(nm, bits[1]) for nm in names[1]])
+
+
+def eval_cc_arm(body_expr, db=None):
     """Evaluate one arm of CallingConvention::new to {field: value}."""
     env = {}      # local hid -> list / set of scalars or literal
     b = unq(body_expr)
@@ -62,7 +93,10 @@ def eval_cc_arm(body_expr):
             scs = [scalar_of(x) for x in walk(init)]
             scs = [x for x in scs if x]
             c = callee(unq(init)) or ""
-            if "HashSet" in c and last_seg(c) == "new":
+            hs = helper_scalars(db, unq(init))
+            if hs is not None:
+                env[hid] = hs
+            elif "HashSet" in c and last_seg(c) == "new":
                 env[hid] = ("set", [])
             elif scs and last_seg(c) in ("into_vec", "from", "to_vec") or (scs and unq(init).get("k") in ("Array",)) or \
                     (scs and "vec" in (unq(init).get("mac") or "")) or (scs and len(scs) > 1):
@@ -94,6 +128,8 @@ def eval_cc_arm(body_expr):
         e = unq(f["e"])
         if e.get("k") == "Path" and "local" in e["res"]:
             out[f["n"]] = env.get(e["res"]["hid"])
+        elif ("Vec" in (callee(e) or "") and last_seg(callee(e) or "") == "new") or (e.get("mac") and "vec" in e["mac"] and not any(scalar_of(x) for x in walk(e))):
+            out[f["n"]] = ("list", [])
         elif int_lit(e) is not None:
             out[f["n"]] = ("int", int_lit(e))
         elif scalar_of(e):
@@ -130,13 +166,15 @@ def run(db, rep, feat, tier):
     rep.anchor(m is not None, "match over CallingConventionType")
     ccs = {}
     for a in arm_table(m):
-        val = eval_cc_arm(a.body)
+        val = eval_cc_arm(a.body, db)
         for v in a.variants:
             ccs[last_seg(v)] = (val, a.line)
     for name, ref in ABI.items():
         rep.anchor(name in ccs and ccs[name][0] is not None, "calling convention arm %s" % name)
         cc, line = ccs[name]
         w = db.where(hb, line)
+        for fld in ("argument_registers", "preserved_registers", "trashed_registers"):
+            rep.anchor(cc.get(fld) is not None, "%s of %s is built in a form the evaluator understands" % (fld, name))
         args = (cc.get("argument_registers") or ("list", []))[1]
         pres = set((cc.get("preserved_registers") or ("set", []))[1])
         trash = set((cc.get("trashed_registers") or ("set", []))[1])
@@ -267,11 +305,17 @@ def r4(db, rep):
                 off_ok = has_sub and has_mul and has_add
     r.decide(off_ok, "argument_type|stack_offset", db.where(body),
              "the stack offset is not offset + length * (argument_number - register_arguments.len())")
+    # the register handed out is the element of the register list at position argument_number (indexing or get())
     reg_ok = False
-    for i, t in mir_calls(body):
-        if last_seg(t.get("f") or "") == "index" and "Scalar" in t.get("fg", ""):
-            if tm.operand(t["args"][1]) == ("param", 2):
-                reg_ok = True
+    for blk in body["blocks"]:
+        for s in blk["s"]:
+            rv = s.get("rv")
+            if rv and rv["k"] == "Aggregate" and last_seg(rv.get("variant", "")) == "Register":
+                t = tm.operand(rv["ops"][0])
+                for c in calls_in(t):
+                    if last_seg(c[1]) in ("index", "get") and len(c[2]) == 2 and c[2][1] == ("param", 2) and \
+                            any(isinstance(x, tuple) and x and x[0] == "field" and x[1] == ("param", 1) for x in subterms(c[2][0])):
+                        reg_ok = True
     r.decide(reg_ok, "argument_type|register_order", db.where(body), "register arguments must be argument_registers[argument_number]")
 
 
@@ -294,33 +338,62 @@ def r5(db, rep):
             return "Err"
         return None
 
-    def visit(n):
-        n = unq(n)
-        if n.get("k") != "If":
-            return
-        c = unq(n["c"])
-        em = None
-        for x in walk(c):
-            if x.get("k") == "Path" and last_seg(x["res"].get("def", "") or "").startswith("EM_"):
-                em = last_seg(x["res"]["def"])
-        if em:
-            then = n["then"]
-            mm = [x for x in walk(then) if x.get("k") == "Match" and x.get("src") == "Normal"]
-            if mm:
-                d = {}
-                for a in arm_table(mm[0]):
-                    for v in a.variants:
-                        d[last_seg(v)] = arch_ctor(a.body)
-                got[em] = d
-            else:
-                got[em] = {"any": arch_ctor(then)}
-        if "else" in n:
-            visit(n["else"])
+    from db import pat_leaves, pat_path
 
+    def em_of(n):
+        for x in walk(n):
+            if x.get("k") == "Path" and last_seg(x.get("res", {}).get("def", "") or "").startswith("EM_"):
+                return last_seg(x["res"]["def"])
+        return None
+
+    def select(n, em, endian):
+        """Which descriptor the selecting expression yields for (e_machine, byte order): the decision tree is evaluated,
+        whether it is written as an if-chain or as a match."""
+        n = unq(n)
+        k = n.get("k")
+        if k == "Block":
+            return select(n["expr"], em, endian) if n.get("expr") else arch_ctor(n)
+        if k == "If":
+            c = unq(n["c"])
+            if c.get("k") == "Binary" and c.get("op") in ("Eq", "Ne") and em_of(c) is not None:
+                taken = (em_of(c) == em) == (c["op"] == "Eq")
+                if taken:
+                    return select(n["then"], em, endian)
+                return select(n["else"], em, endian) if "else" in n else None
+            return None
+        if k == "Match" and n.get("src") == "Normal":
+            by_endian = any((callee(x) or "").endswith("endianness") for x in walk(n["scrut"]))
+            for a_ in n["arms"]:
+                if "guard" in a_:
+                    return None
+                hit = False
+                for leaf in pat_leaves(a_["pat"]):
+                    if leaf.get("k") == "Wild":
+                        hit = True
+                    pp = pat_path(leaf)
+                    nm = last_seg(pp) if pp else (em_of(leaf) or "")
+                    if by_endian and nm == endian:
+                        hit = True
+                    if not by_endian and nm == em:
+                        hit = True
+                if hit:
+                    return select(a_["body"], em, endian)
+            return None
+        return arch_ctor(n)
+
+    root = None
     for n in walk(hb["body"]):
-        if unq(n).get("k") == "If":
-            visit(n)
+        u = unq(n)
+        if (u.get("k") == "If" and em_of(u["c"])) or (u.get("k") == "Match" and u.get("src") == "Normal" and
+                                                       any(em_of(a_["pat"]) or any(last_seg(pat_path(l_) or "").startswith("EM_") for l_ in pat_leaves(a_["pat"])) for a_ in u["arms"])):
+            root = u
             break
+    rep.anchor(root is not None, "the e_machine decision in Elf::new")
+    for em, w in want.items():
+        d = {e: select(root, em, e) for e in ("Big", "Little")}
+        got[em] = {"any": d["Big"]} if "any" in w and d["Big"] == d["Little"] else d
+    other = {e: select(root, "EM_NONE", e) for e in ("Big", "Little")}
+    r.decide(set(other.values()) == {"Err"}, "elf_machine|other", db.where(hb), "an unlisted e_machine must be rejected, it selects %s" % other)
     for em, w in want.items():
         r.decide(got.get(em) == w, "elf_machine|%s" % em, db.where(hb), "%s selects %s, expected %s" % (em, got.get(em), w))
 
